@@ -161,6 +161,11 @@ def corpus():
     yield {"op": "roundtrip", "tg": g4, "fmt": "long_textgrid", "blanks": True, "iei": True, "stream": "keyword"}    # A10 (known)
     g5 = {"lo": 0.0, "hi": 5.0, "tiers": [{"k": "I", "name": "a", "es": [[1.0, 2.0, "IntervalTier"]], "lo": 0.0, "hi": 5.0}]}
     yield {"op": "roundtrip", "tg": g5, "fmt": "short_textgrid", "blanks": True, "iei": True, "stream": "keyword"}   # A10 (known)
+    # seeded-change regressions: a quote ending a non-final line of a label; a time two ulps below an integer
+    g6 = {"lo": 0.0, "hi": 5.0, "tiers": [{"k": "P", "name": "p", "es": [[1.0, 'say "ah"\nrising'], [2.0, '"\n"']], "lo": 0.0, "hi": 5.0},
+                                        {"k": "I", "name": "i", "es": [[1.0, 2.9999999999999996, 'a"\nb']], "lo": 0.0, "hi": 5.0}]}
+    for fmt in ioops.FORMATS:
+        yield {"op": "roundtrip", "tg": g6, "fmt": fmt, "blanks": True, "iei": True}
 
 
 def gen(rnd, tier):
